@@ -57,7 +57,7 @@ CLAIMED = {
   "history is never Fault nor Panic and the pointer assertions hold in every reachable state (C03_general_no_fault_in_any_history, "
   "C03_general_pointer_assertions_hold; C03_no_fault_in_any_full_history for every operation the theory knows, keyed views, set_from_owned and enum variant switches included); growth beyond the allocation is InvalidRealloc before any memmove. "
   "Tie: histories run on an mmap'ed allocation of exactly initial+10240 bytes flush against a PROT_NONE page (before or after) with "
-  "canaries on the other side, each case in a forked child: SIGSEGV and canary damage are observations; 40 accessor-swap scenarios on two "
+  "canaries on the other side, each case in a forked child: SIGSEGV and canary damage are observations; 60 accessor-swap scenarios on two "
   "buffers; allowance-scale histories that shift a stale inner pointer (D26).",
   "PARTIAL (DESIGN section 7): the theorems are about the byte-level contract (which offsets are touched); that the Rust pointer "
   "arithmetic realises those offsets is the correspondence plus guard pages. The full operation set incl. element-level operations of lists of "
